@@ -28,6 +28,7 @@ import (
 func init() { subs["prov"] = corrProv }
 
 type provEnv struct {
+	sec, pub    string
 	dir         string
 	archive     []byte
 	archiveName string
@@ -84,7 +85,53 @@ func newProvEnv(dir string, r *Rng) *provEnv {
 	env.prov = []byte(sig)
 	blk, _ := clearsign.Decode(env.prov)
 	env.signedBytes = append([]byte{}, blk.Bytes...)
+	env.sec, env.pub = sec1, pub1
 	return env
+}
+
+// signVerifyVariants: "a chart signed and then verified with the matching public key always passes" -- for chart
+// metadata of every shape (the metadata is part of the signed message, next to the digests)
+func signVerifyVariants(rep *Report, env *provEnv, seed uint64) {
+	descs := []string{"plain", "Deploys the frobnicator, and more...", "ends with three dots...\n", "line one\n...\nline three", "---\nnot a document", "files:\n  x.tgz: sha256:00", "a: b\n...\nfiles:\n  evil.tgz: sha256:deadbeef", "ünïcödé — …", strings.Repeat("long ", 60), "..."}
+	for i, d := range descs {
+		dir := filepath.Join(env.dir, fmt.Sprintf("variant-%d", i))
+		os.MkdirAll(dir, 0o755)
+		ch := &chart.Chart{Metadata: &chart.Metadata{APIVersion: "v2", Name: "vchart", Version: "0.1.0", Description: d, Keywords: []string{"etc...", "k"}, Annotations: map[string]string{"note": "wait for it..."}},
+			Templates: []*chart.File{{Name: "templates/cm.yaml", Data: []byte("kind: ConfigMap\n")}}}
+		p, err := chartutil.Save(ch, dir)
+		if err != nil {
+			rep.H("variant:save-error")
+			continue
+		}
+		cs := map[string]any{"kind": "sign-then-verify", "description": d}
+		rep.Count(cs, true)
+		var verr error
+		if pn := safely(func() {
+			var s *provenance.Signatory
+			s, verr = provenance.NewFromFiles(env.sec, env.pub)
+			if verr != nil {
+				return
+			}
+			var sig string
+			sig, verr = s.ClearSign(p)
+			if verr != nil {
+				return
+			}
+			os.WriteFile(p+".prov", []byte(sig), 0o644)
+			_, verr = s.Verify(p, p+".prov")
+			if verr == nil {
+				_, verr = downloader.VerifyChart(p, env.pub)
+			}
+		}); pn != "" {
+			rep.Issue(Issue{Kind: "monitor", Fingerprint: "C20:panic:sign-verify", What: pn, Case: cs, Seed: seed, Index: 3000 + i})
+			continue
+		}
+		rep.H("variant:" + map[bool]string{true: "verified", false: "REJECTED"}[verr == nil])
+		if verr != nil {
+			rep.Issue(Issue{Kind: "monitor", Fingerprint: "C17:signed-chart-rejected", What: "a chart signed and then verified with the matching public key is rejected: " + verr.Error(), Case: cs, Seed: seed, Index: 3000 + i})
+		}
+		os.RemoveAll(dir)
+	}
 }
 
 // primitives computed with the libraries directly (not through Signatory.Verify)
@@ -130,7 +177,7 @@ func provPrims(archive []byte, base string, prov []byte, ringFile string) map[st
 func corrProv(seed uint64, n int, tier string, out string, replay string) {
 	m := StartModel()
 	defer m.Close()
-	rep := NewReport("C17", "prov", seed, "case = a chart archive signed with a freshly generated OpenPGP key, then one mutation: single-byte flip / insertion / deletion / truncation of the archive, of the provenance body, of the signature armor; renamed archive; keyring = signer only / other key only / both; the real Signatory.Verify, downloader.VerifyChart, ChartPathOptions.LocateChart with Verify on the local archive and through --repo (the install paths) and ChartDownloader.DownloadTo over HTTP under the strategies always / if-possible / never (the download path) are run on every case (downloads on every fourth); the Verify verdict is compared with the model's decision fed with the primitive results (clearsign decode, signature check, digest, message parse) computed with the libraries directly; monitor: no mutant whose archive bytes or signed text differ from the original is accepted; non-trivial = every mutant; distinct = hash of mutation")
+	rep := NewReport("C17", "prov", seed, "case = charts with metadata of many shapes (lines ending in three dots, lines that are `...` or `---`, text that looks like the files section) signed and verified with the matching key (must pass); then a chart archive signed with a freshly generated OpenPGP key, then one mutation: single-byte flip / insertion / deletion / truncation of the archive, of the provenance body, of the signature armor; renamed archive; keyring = signer only / other key only / both; the real Signatory.Verify, downloader.VerifyChart, ChartPathOptions.LocateChart with Verify on the local archive and through --repo (the install paths) and ChartDownloader.DownloadTo over HTTP under the strategies always / if-possible / never (the download path) are run on every case (downloads on every fourth); the Verify verdict is compared with the model's decision fed with the primitive results (clearsign decode, signature check, digest, message parse) computed with the libraries directly; monitor: no mutant whose archive bytes or signed text differ from the original is accepted; non-trivial = every mutant; distinct = hash of mutation")
 	dir, _ := os.MkdirTemp("", "corr-prov")
 	defer os.RemoveAll(dir)
 	env := newProvEnv(dir, NewRng(seed, 0))
@@ -239,6 +286,7 @@ func corrProv(seed uint64, n int, tier string, out string, replay string) {
 		rep.Traces++
 	}
 	// the genuine one, each keyring
+	signVerifyVariants(rep, env, seed)
 	check("genuine", env.archive, env.archiveName, env.prov, env.ringSigner, 0)
 	check("genuine-both", env.archive, env.archiveName, env.prov, env.ringBoth, 1)
 	check("other-key-only", env.archive, env.archiveName, env.prov, env.ringOther, 2)
